@@ -150,6 +150,7 @@ def check_C01(chk):
     if rs.ok:
         c01a(chk, rs)
         c01b(chk, rs)
+        sample_loop_exits(chk, rs, "C01.b")
     c01c(chk)
     c01d(chk)
     c01e(chk)
@@ -301,6 +302,42 @@ def c01b(chk, rs):
                 why = "slice reaches genotype discriminant=%s, arithmetic on the way=%d" % (src_ok, len(info["binops"]))
             chk.ob("C01.b", "read_site/counts+=genotype", ok, f.loc(b),
                    "the ALT count added is the matched Genotype's discriminant (0/1/2) unmodified (%s)" % why)
+
+
+def sample_loop_exits(chk, rs, rule):
+    """the per-sample loop of read_site may only be left when the zipped iterator is exhausted or through the Error arm:
+    every selected sample's genotype is examined before the site is classified"""
+    f = rs.fn
+    L = {x for x in f.reachable_from(rs.header) if rs.header in f.reachable_from(x)}
+    err_t = rs.arm.get("Error")
+    err_region = an.arm_region(f, rs.geno_sw, err_t) | {err_t} if err_t is not None else set()
+    bad = []
+    n = 0
+    for x in sorted(L):
+        for s in f.succ.get(x, []):
+            if s in L or f.term(s)["k"] == "unreachable":
+                continue
+            n += 1
+            if x == rs.next_sw and s == rs.loop_none:
+                continue
+            if x == rs.geno_sw and s == err_t:
+                continue
+            if x in err_region:
+                continue
+            bad.append("%s -> %s" % (f.loc(x), f.loc(s)))
+    chk.ob(rule, "read_site/sample-loop/exits-only-on-exhaustion-or-Error", not bad and n >= 2, f.loc(rs.header),
+           "the loop over (sample, genotype) pairs must examine every selected sample: it may only end when the iterator is exhausted or by returning the "
+           "genotype error (early exits found: %s)" % (bad or "none"))
+    # the Error arm is not conditional on anything but selection and the genotype itself
+    conds = []
+    for sb, st in f.switches():
+        if sb in (rs.next_sw, rs.sel_sw, rs.geno_sw):
+            continue
+        for tgt in set(f.succ.get(sb, [])):
+            if err_t is not None and an.dominated_by_edge(f, sb, tgt, err_t) and sb in f.reachable_from(rs.loop_some):
+                conds.append(f.loc(sb))
+    chk.ob(rule, "read_site/Error-arm/unconditional", not conds, f.loc(err_t) if err_t is not None else f.loc(),
+           "returning the ploidy error depends only on the sample being selected and its genotype being Error (extra conditions at %s)" % (conds or "none"))
 
 
 def c01c(chk):
@@ -516,7 +553,8 @@ def check_C02(chk):
         "outcomes are wired Standard/Projected/InsufficientData in that priority; (b) argument roles (project_from=totals, from=counts, "
         "project_to, to) are preserved from read_site down to hypergeometric_pmf(size, successes, draws, observed); (c) the three "
         "individuals->shape conversions all have affine form 2i+1; (d) dimension and size validation dominate PartialProjection::from_shape; "
-        "(e) InsufficientData adds nothing to the spectrum; (f) the user's precision passes through when projecting.")
+        "(e) InsufficientData adds nothing to the spectrum; (f) the user's precision passes through when projecting; (g) building blocks of the "
+        "hypergeometric weight: factorial table bound <= 170 (f64 range) with LEN = MAX + 1, fallback ln_gamma(x + 1), binomial argument roles of the pmf.")
     chk.not_decided = "the pmf values, their product over axes, row-major walking of the target (numeric)"
     rs = ReadSite(chk)
     if rs.ok:
@@ -526,7 +564,8 @@ def check_C02(chk):
     c02d(chk)
     c02e(chk)
     c02f(chk)
-    for r, n in (("C02.a", 7), ("C02.b", 10), ("C02.c", 3), ("C02.d", 2), ("C02.e", 1), ("C02.f", 1)):
+    c02g(chk)
+    for r, n in (("C02.a", 8), ("C02.b", 10), ("C02.c", 3), ("C02.d", 2), ("C02.e", 1), ("C02.f", 1), ("C02.g", 7)):
         chk.floor(r, n)
 
 
@@ -638,6 +677,19 @@ def c02a(chk, rs):
         guards = {x[1] for x in acc_fields if isinstance(x, tuple)}
         chk.ob("C02.a", "fold-closure/%s-accumulates-own-flag" % nm, guards == {idx}, g.loc(),
                "component %d must be and-ed with accumulator component %d only (guards read: %s)" % (idx, idx, sorted(guards)))
+    # the closure contains no comparison other than those two (a comparison that only steers control flow, e.g.
+    # `total > 0 && total >= to`, is invisible to the data slice)
+    allc = []
+    for _, _, _, rv, _ in g.assigns():
+        if rv["k"] == "binop" and rv["op"] in ("Eq", "Ne", "Lt", "Le", "Gt", "Ge"):
+            allc.append((rv["op"], leaf_role(rv["l"]) or ostr(rv["l"]), leaf_role(rv["r"]) or ostr(rv["r"])))
+    for _, t in g.calls():
+        if (t["callee"].get("path") or "").startswith("core::cmp::"):
+            allc.append(("call:" + t["callee"]["path"].split("::")[-1], "?", "?"))
+    allowed_all = {("Eq", "total", "to"), ("Eq", "to", "total"), ("Ge", "total", "to"), ("Le", "to", "total")}
+    extra = [c for c in allc if c not in allowed_all]
+    chk.ob("C02.a", "fold-closure/no-other-comparison", not extra and len(allc) == 2, g.loc(),
+           "the covered-site decision compares (total, to) with == and >= only; every comparison in the closure: %s" % allc)
     # outcome wiring in read_site
     res = an.call_dest_local(ft)
     sw_exact = sw_proj = None
@@ -812,6 +864,91 @@ def c02b(chk, rs):
             folds = [(b2, t2) for b2, t2 in g.calls() if callee_is(t2["callee"], N.FOLD)]
             one = len(folds) == 1 and isinstance(const_val(folds[0][1]["args"][1]), dict) and const_val(folds[0][1]["args"][1]).get("f") == "1.0"
             chk.ob("C02.b", "project_value/product-of-axis-pmfs", ok and one, c1.loc(), "joint = fold(1.0, |joint, p| joint * p)")
+
+
+def c02g(chk):
+    """hypergeometric building blocks whose truth is in the shape of the code"""
+    prog = chk.prog
+    mx = prog.consts.get("sfs_core::utils::factorial::MAX")
+    ln = prog.consts.get("sfs_core::utils::factorial::PRECOMPUTED_LEN")
+    ok = mx is not None and ln is not None and isinstance(mx.get("val"), int) and mx["val"] <= 170 and ln.get("val") == mx["val"] + 1
+    chk.ob("C02.g", "factorial-table/bound<=170", ok, "core/src/utils.rs",
+           "170! is the largest factorial representable in f64 (171! = inf): the precomputed table may hold 0!..MAX! with MAX <= 170 and LEN = MAX + 1 (MAX = %s, LEN = %s)" % (mx.get("val") if mx else None, ln.get("val") if ln else None))
+    lf = chk.fn("sfs_core::utils::factorial::ln_factorial")
+    if lf is not None:
+        cl = None
+        for c in prog.closures_of(lf.path):
+            if an.calls(c, "sfs_core::utils::gamma::ln_gamma"):
+                cl = c
+        ok = False
+        why = "fallback closure calling ln_gamma not found"
+        if cl is not None:
+            chk.fns_analysed.add(cl.path)
+            b, t = an.calls(cl, "sfs_core::utils::gamma::ln_gamma")[0]
+            # argument = (x as f64) + 1.0
+            l = op_local(t["args"][0])
+            d = cl.single_def(cl.copy_root(l)) if l is not None else None
+            if d and d[0] == "assign" and d[3]["k"] == "binop" and d[3]["op"] == "Add":
+                cv = [const_val(d[3]["l"]), const_val(d[3]["r"])]
+                one = [v for v in cv if isinstance(v, dict) and v.get("f") == "1.0"]
+                other = d[3]["l"] if isinstance(cv[1], dict) else d[3]["r"]
+                sl, info = cl.slice_locals(other, through_calls=False)
+                casts_x = not info["binops"]
+                ok = len(one) == 1 and casts_x
+                why = "ln_gamma(%s)" % rvstr(d[3])
+            else:
+                why = "argument of ln_gamma is not `x + 1.0` (n! = Gamma(n + 1)): %s" % (rvstr(d[3]) if d and d[0] == "assign" else "?")
+        chk.ob("C02.g", "ln_factorial/fallback=ln_gamma(x+1)", ok, lf.loc(), "beyond the table ln n! must be ln Gamma(n + 1): " + why)
+        # the table lookup uses x itself as index and takes ln of the entry
+        gets = [t for b, t in lf.calls() if callee_is(t["callee"], "core::slice::<impl [T]>::get")]
+        ok = False
+        if len(gets) == 1:
+            sl, info = lf.slice_locals(gets[0]["args"][1], through_calls=False)
+            ok = 1 in sl and not info["binops"]
+        chk.ob("C02.g", "ln_factorial/table-indexed-by-x", ok, lf.loc(), "the table is read at index x (entry i holds i!)")
+    pc = chk.fn("sfs_core::utils::factorial::precomputed")
+    if pc is not None:
+        ok = False
+        for c in prog.closures_of(pc.path):
+            for c2 in [c] + prog.closures_of(c.path):
+                muls = [rv for _, _, _, rv, _ in c2.assigns() if rv["k"] == "binop" and rv["op"] == "Mul"]
+                stores = [p for _, _, p, rv, _ in c2.assigns() if p[1] == (("deref",),)]
+                if len(muls) == 1 and len(stores) == 1:
+                    ok = True
+        chk.ob("C02.g", "precomputed/entry_i=entry_(i-1)*i", ok, pc.loc(), "the table is filled by the running product acc * i")
+    hp = chk.fn(HYPERGEOM)
+    if hp is not None:
+        bs = an.calls(hp, "sfs_core::utils::binomial")
+        roles = []
+        for b, t in bs:
+            rr = []
+            for a in t["args"]:
+                l = op_local(a)
+                root = hp.copy_root(l) if l is not None else None
+                if root is not None and 1 <= root <= 4:
+                    rr.append(("p", root))
+                else:
+                    d = hp.single_def(root) if root is not None else None
+                    # x - y through the overflow-checked tuple
+                    if d and d[0] == "assign" and d[3]["k"] == "use":
+                        pl = op_place(d[3]["op"])
+                        d = hp.single_def(pl[0]) if pl else None
+                    if d and d[0] == "assign" and d[3]["k"] == "binop" and d[3]["op"].startswith("Sub"):
+                        rr.append(("sub", hp.copy_root(op_local(d[3]["l"])), hp.copy_root(op_local(d[3]["r"]))))
+                    else:
+                        rr.append(None)
+            roles.append(tuple(rr))
+        want = {(("p", 2), ("p", 4)), (("sub", 1, 2), ("sub", 3, 4)), (("p", 1), ("p", 3))}
+        chk.saw_calls(len(bs))
+        chk.ob("C02.g", "hypergeometric_pmf/binomial-roles", set(roles) == want and len(roles) == 3, hp.loc(),
+               "pmf = C(successes, observed) * C(size - successes, draws - observed) / C(size, draws) with (size, successes, draws, observed) = parameters 1..4; found %s" % roles)
+        # combination: (b1 * b2) / b3
+        d0 = [d for d in hp.defs.get(0, []) if d[0] == "assign" and d[3]["k"] == "binop"]
+        ok = any(d[3]["op"] == "Div" for d in d0) and sum(1 for _, _, _, rv, _ in hp.assigns() if rv["k"] == "binop" and rv["op"] == "Mul") == 1
+        chk.ob("C02.g", "hypergeometric_pmf/product-over-quotient", ok, hp.loc(), "result is (C1 * C2) / C3")
+        # observed > draws => 0
+        z = [rv for _, _, p, rv, _ in hp.assigns() if p[0] == 0 and rv["k"] == "use" and isinstance(const_val(rv["op"]), dict) and const_val(rv["op"]).get("f") == "0.0"]
+        chk.ob("C02.g", "hypergeometric_pmf/zero-when-observed>draws", len(z) == 1, hp.loc(), "the impossible case returns 0.0")
 
 
 def c02d(chk):
@@ -1090,6 +1227,16 @@ def c10a(chk):
     chk.ob("C10.a", "handle_skipped_site/lenient-returns-Ok", assigns_ret(lr, "Ok") and not assigns_ret(lr - sr, "Err"), h.loc(t_lenient), "non-strict path returns Ok(())")
     chk.ob("C10.a", "handle_skipped_site/strict-returns-Err-without-counting", assigns_ret(sr, "Err") and not assigns_ret(sr, "Ok") and not (set(inc) & sr), h.loc(t_strict),
            "strict path returns Err and performs no skipped increment")
+    # nothing bypasses the strict test: it dominates every write of self.* and every assignment of the return value
+    bypass = []
+    for b, i, p, rv, s in h.assigns():
+        cp = h.canon(p)
+        if (an.self_field(cp) is not None or p[0] == 0) and not h.dominates(strict_sw, b):
+            bypass.append(h.loc(b))
+    for b in h.return_blocks():
+        pass
+    chk.ob("C10.a", "handle_skipped_site/strict-test-dominates-all-effects", not bypass, h.loc(strict_sw),
+           "every counter update and every return value must be decided after consulting self.strict (effects not dominated by the strict test: %s)" % (bypass or "none"))
     chk.extra["strict_switch"] = h.loc(strict_sw)
 
 
